@@ -40,6 +40,16 @@ def cases(chk):
             sid[0] += 1
             return sid[0]
         yield "random", {"work": [[fresh() for _i in range(r.randint(1, 4))] for _t in range(nt)], "seed": r.randrange(1 << 30)}
+    # line-level preemption inside the coder, the layer base class and the noise layers: a switch between ANY two source lines
+    for _ in range(chk.scale(80, 2500)):
+        nt = r.randint(2, 3)
+        sid = [0]
+
+        def fresh2():
+            sid[0] += 1
+            return sid[0]
+        yield "preempt", {"work": [[fresh2() for _i in range(r.randint(1, 3))] for _t in range(nt)], "seed": r.randrange(1 << 30), "prob": r.choice([0.05, 0.2, 0.5]),
+                          "entry": r.choice(["top", "coder", "coder"])}
     for _ in range(chk.scale(60, 1500)):
         yield "dispatcher", {"frames": [r.randint(1, 40) for _i in range(r.randint(1, 5))], "flushes": r.randint(1, 6), "seed": r.randrange(1 << 30)}
     if not chk.quick():
@@ -56,11 +66,16 @@ def node_for(sid):
     return ProtocolTreeNode("iq", {"id": "s%d" % sid, "type": "get", "xmlns": "w:p"}, [ProtocolTreeNode("ping", data=b"x" * (sid % 7))])
 
 
-def execute(work, choose):
-    """run the work with real threads; returns (coop, bottom writes, locks of interest)"""
+def execute(work, choose, preempt=None, entry="top"):
+    """run the work with real threads; returns (coop, bottom writes, locks of interest).  entry="coder": the threads call the coder layer's
+    send directly, as YowStack.send does on a stack whose topmost layer is the coder (no layer lock above the encoder)"""
     del coop.LOCKS[:]
     stack, top, bottom, L = concstack.build()
+    if entry == "coder":
+        top = L["coder"]
     c = coop.Coop()
+    if preempt is not None:
+        c.preempt_lines(("yowsup/layers/coder/", "yowsup/layers/__init__.py", "yowsup/layers/noise/"), preempt[0], preempt[1])
     for stanzas in work:
         def body(stanzas=stanzas):
             for sid in stanzas:
@@ -235,6 +250,11 @@ def run_case(chk, stream, case):
     import random
     if stream == "dispatcher":
         return run_dispatcher(chk, case)
+    if stream == "preempt":
+        r = random.Random(case["seed"])
+        c, writes, L, err = execute(case["work"], coop.chooser(r), preempt=(case["prob"], random.Random(case["seed"] ^ 0x5bd1e995)), entry=case.get("entry", "top"))
+        chk.hit("preempt:threads=%d" % len(case["work"]), "preempt:p=%s" % case["prob"])
+        return check_run(chk, case, c, writes, L, err, "preempt")
     if stream == "random":
         r = random.Random(case["seed"])
         c, writes, L, err = execute(case["work"], coop.chooser(r))
